@@ -622,6 +622,7 @@ static void setup(const Plan &plan) {
     CX->nconn = (int)plan.P("nconn", 1);
     CX->addr = addr_for(CX->tp, plan.seed);
     XO.check_counters = plan.P("counters") != 0;
+    XO.check_ready_at_await = true;
     XO.judge_unprovoked = plan.P("variant") == 0 && !plan.P("relay");
     if (plan.prop == "C01") G->alias["C03.failed_send_delivered"] = "C01.phantom";   // a message whose xcm_send returned -1 (e.g. EINTR) yet arrives: not in "the sequence for which xcm_send returned success"
     install_basic_tls_files("/cert");
@@ -671,7 +672,12 @@ static void setup(const Plan &plan) {
                 }
                 if (!x_wait(srv)) break;
             }
-            XSock *c = x_accept(srv, nullptr, strf("s?"));
+            // C05: every fifth plan asks a non-blocking server for a connection in blocking mode (xcm.blocking=true in the map of
+            // xcm_accept_a): the call itself must still not wait, e.g. for a TLS handshake; the connection is switched back at once
+            struct xcm_attr_map *bam = nullptr;
+            if (srv->nonblocking && !CX->relay && pl->seed % 5 == 0) { bam = xcm_attr_map_create(); xcm_attr_map_add_bool(bam, "xcm.blocking", true); G->count("probe.accept_blocking_attr"); }
+            XSock *c = x_accept(srv, bam, strf("s?"));
+            if (bam) { xcm_attr_map_destroy(bam); if (c) x_set_blocking(c, false); }
             if (!c) {
                 if (errno == EAGAIN || errno == EINTR) continue;
                 G->note("accept failed: %s", strerror(errno));
